@@ -160,3 +160,13 @@ package abci
 //@   props C01
 //@   ensures-local err == nil ==> len(systemTxs) == 1 && len(systemTxResults) == 1 && systemTxResults[0] != nil && systemTxResults[0].Code == types.CodeTypeOK && bytesId(systemTxResults[0].Data) == uf("cborMarshal", nil)
 //@   note the result the proposer caches for the block-metadata transaction is exactly what executing that transaction yields on every other node: code OK and the CBOR encoding of nil as data (DeliverTx encodes the - absent - transaction output with cbor.Marshal)
+
+// ---- commit (C01): the cached consensus parameters come from the committed state ----
+
+//@ import dbapi "github.com/oasisprotocol/oasis-core/go/storage/mkvs/db/api"
+//@ ghost func Finalizes() int { return dbapi.GFinalizes }
+//@ func applicationState.doCommit
+//@   props C01
+//@   requires s != nil
+//@   precall applicationState\)\.doCommitOrInitChainLocked$ :: defined(canonicalState) && Finalizes() > old(Finalizes())
+//@   note the block time and the cached consensus parameters (size, gas and transaction limits every later CheckTx/ProcessProposal/DeliverTx consults) are refreshed only AFTER the decided proposal's tree was committed (it is what s.canonicalState is assigned) and the new root was finalized in the node database (the opaque tree and database calls in between havoc the fields of s in this model, so the clause is stated over the local and a call counter): a node that keeps running caches the parameters of the state it just committed - the same ones a restarted node loads from the latest root (seed C01_f refreshed them from the previous state, so a parameter change took effect one block late on live nodes only)
